@@ -3,22 +3,42 @@ import GtfsVerif.Model.HashCombinators
 namespace Gtfs.Gen.HashSchema
 open Gtfs.Hash
 
+def eventFields (v : EventData) :=
+  (v.time, (v.delay, v.uncertainty))
+def encEventFields :=
+  (encPair (encOpt (encFixed 8)) (encPair (encOpt (encFixed 8)) (encOpt (encFixed 4))))
+
+def stuFields (v : StuData) :=
+  (v.stopSequence, (v.stopId, (v.track, (v.sr, ((v.arrival.map eventFields), (v.departure.map eventFields))))))
+def encStuFields :=
+  (encPair (encOpt (encFixed 4)) (encPair (encOpt encStr) (encPair (encOpt encStr) (encPair (encFixed 4) (encPair (encOpt encEventFields) (encOpt encEventFields))))))
+
 /-- the fields `hasher.trip` writes, in order, as a nested pair -/
 def tripFields (x : TripData) :=
-  (x.id, (x.routeId, (x.dir, (x.hasStartDate, (x.startDate, (x.hasStartTime, (x.startTime, (x.sr, x.stus.map fun y => (y.stopSequence, (y.stopId, (y.track, (y.sr, ((y.arrival.map fun z => (z.time, (z.delay, z.uncertainty))), (y.departure.map fun z => (z.time, (z.delay, z.uncertainty))))))))))))))))
+  (x.id, (x.routeId, (x.dir, (x.hasStartDate, (x.startDate, (x.hasStartTime, (x.startTime, (x.sr, x.stus.map stuFields))))))))
 
 /-- the encoder `hasher.trip` applies to them -/
 def encTripFields :=
-  (encPair encStr (encPair encStr (encPair (encFixed 1) (encPair (encFixed 1) (encPair (encFixed 8) (encPair (encFixed 1) (encPair (encFixed 8) (encCounted (encFixed 4) (encPair (encOpt (encFixed 4)) (encPair (encOpt encStr) (encPair (encOpt encStr) (encPair (encFixed 4) (encPair (encOpt (encPair (encOpt (encFixed 8)) (encPair (encOpt (encFixed 8)) (encOpt (encFixed 4))))) (encOpt (encPair (encOpt (encFixed 8)) (encPair (encOpt (encFixed 8)) (encOpt (encFixed 4))))))))))))))))))
+  (encPair encStr (encPair encStr (encPair (encFixed 1) (encPair (encFixed 1) (encPair (encFixed 8) (encPair (encFixed 1) (encPair (encFixed 8) (encCounted (encFixed 4) encStuFields))))))))
 
 def encTrip (x : TripData) : List UInt8 := encTripFields (tripFields x)
 
+def vehicleIdFields (v : VehicleIdData) :=
+  (v.id, (v.label, v.licensePlate))
+def encVehicleIdFields :=
+  (encPair encStr (encPair encStr encStr))
+
+def positionFields (v : PositionData) :=
+  (v.latitude, (v.longitude, (v.bearing, (v.odometer, v.speed))))
+def encPositionFields :=
+  (encPair (encOpt (encFixed 4)) (encPair (encOpt (encFixed 4)) (encPair (encOpt (encFixed 4)) (encPair (encOpt (encFixed 8)) (encOpt (encFixed 4))))))
+
 /-- the fields `hasher.vehicle` writes, in order -/
 def vehicleFields (x : VehicleData) :=
-  ((x.id.map fun z => (z.id, (z.label, z.licensePlate))), ((x.trip.map fun z => z), ((x.position.map fun z => (z.latitude, (z.longitude, (z.bearing, (z.odometer, z.speed))))), (x.currentStopSequence, (x.stopId, (x.currentStatus, (x.timestamp, (x.congestionLevel, (x.occupancyStatus, x.occupancyPercentage)))))))))
+  ((x.id.map vehicleIdFields), (x.trip, ((x.position.map positionFields), (x.currentStopSequence, (x.stopId, (x.currentStatus, (x.timestamp, (x.congestionLevel, (x.occupancyStatus, x.occupancyPercentage)))))))))
 
 def encVehicleFields :=
-  (encPair (encOpt (encPair encStr (encPair encStr encStr))) (encPair (encOpt encTrip) (encPair (encOpt (encPair (encOpt (encFixed 4)) (encPair (encOpt (encFixed 4)) (encPair (encOpt (encFixed 4)) (encPair (encOpt (encFixed 8)) (encOpt (encFixed 4))))))) (encPair (encOpt (encFixed 4)) (encPair (encOpt encStr) (encPair (encOpt (encFixed 4)) (encPair (encOpt (encFixed 8)) (encPair (encFixed 4) (encPair (encOpt (encFixed 4)) (encOpt (encFixed 4)))))))))))
+  (encPair (encOpt encVehicleIdFields) (encPair (encOpt encTrip) (encPair (encOpt encPositionFields) (encPair (encOpt (encFixed 4)) (encPair (encOpt encStr) (encPair (encOpt (encFixed 4)) (encPair (encOpt (encFixed 8)) (encPair (encFixed 4) (encPair (encOpt (encFixed 4)) (encOpt (encFixed 4)))))))))))
 
 def encVehicle (x : VehicleData) : List UInt8 := encVehicleFields (vehicleFields x)
 
